@@ -16,7 +16,7 @@ import itertools
 
 import z3
 
-from .values import (SArr, SBag, SExc, SFunc, SObj, SOpt, SSeq, SSlice, SStr, Unsupported, coerce2,
+from .values import (SArr, SBag, SExc, SFunc, SObj, SOpt, SSeq, SSet, SSlice, SStr, Unsupported, coerce2,
                      concrete, is_bool, is_intlike, is_num, is_reallike, is_z3, num_term, snap,
                      snap_finite, to_bool, to_z3)
 
@@ -1046,6 +1046,14 @@ class Executor:
         return out
 
     def binop(self, op, a, b, st):
+        if isinstance(a, SSet) and isinstance(b, SSet):
+            if isinstance(op, ast.Sub):
+                return SSet(lambda x: z3.And(a.member(x), z3.Not(b.member(x))))
+            if isinstance(op, ast.BitOr):
+                return SSet(lambda x: z3.Or(a.member(x), b.member(x)))
+            if isinstance(op, ast.BitAnd):
+                return SSet(lambda x: z3.And(a.member(x), b.member(x)))
+            raise Unsupported('set operator')
         # containers
         if isinstance(op, ast.Add) and isinstance(a, (tuple, list)) and isinstance(b, type(a)):
             return a + b
@@ -1417,6 +1425,8 @@ class Executor:
             return [(st, getattr(v, attr))]
         if isinstance(v, list) and attr in ('append', 'extend', 'copy', 'index'):
             return [(st, ('listmethod', v, attr))]
+        if isinstance(v, SSet) and attr in ('difference', 'union', 'intersection'):
+            return [(st, ('setmethod', v, attr))]
         if isinstance(v, dict) and attr in ('get', 'items', 'keys', 'values', 'copy', 'pop', 'update'):
             return [(st, ('dictmethod', v, attr))]
         raise Unsupported(f'attribute {attr} of {type(v).__name__}')
@@ -1902,6 +1912,8 @@ class Executor:
             return [(st, SObj('applied:' + fv.cls[9:], {'fn': fv, 'args': tuple(args)}))]
         if isinstance(fv, tuple) and fv and fv[0] == 'listmethod':
             return [(st, prims.list_method(self, fv[1], fv[2], args, st))]
+        if isinstance(fv, tuple) and fv and fv[0] == 'setmethod':
+            return [(st, prims.set_method(self, fv[1], fv[2], args, kwargs, st))]
         if isinstance(fv, tuple) and fv and fv[0] == 'dictmethod':
             return [(st, prims.dict_method(self, fv[1], fv[2], args, kwargs, st))]
         if isinstance(fv, tuple) and fv and fv[0] == 'arrmethod':
